@@ -646,6 +646,21 @@ class BoolArr(list):
             raise Unsupported('count() of a boolean array with undecided entries')
         return sum(1 for x in s if x)
     def copy(s): return BoolArr(s)
+    def select(s, a, b):
+        """Eigen select(): coefficient-wise a where the condition holds, b elsewhere (a, b arrays of the same size or scalars)"""
+        def el(x, k):
+            return x.flat()[k] if isinstance(x, Mx) else D.lift(x)
+        for x in (a, b):
+            if isinstance(x, Mx) and len(x.flat()) != len(s):
+                raise Unsupported('select() operands of different size')
+        out = []
+        for k, c in enumerate(s):
+            if isinstance(c, bool):
+                out.append(el(a, k) if c else el(b, k))
+            else:
+                xa, xb = el(a, k), el(b, k)
+                out.append(D(sp.Piecewise((xa.v, c), (xb.v, True)), sp.Piecewise((xa.t, c), (xb.t, True))))
+        return Mx.vec(out)
 
 
 class MxDiag(Mx):
@@ -790,6 +805,18 @@ def to_z3(e):
         return r
     if isinstance(e, sp.Mod):
         return to_z3(e.args[0]) % to_z3(e.args[1])
+    if isinstance(e, sp.Piecewise):
+        r = None
+        for val, cond in reversed(e.args):
+            v = to_z3(val)
+            if r is None:
+                r = v
+            else:
+                if v.sort() != r.sort():
+                    v = z3.ToReal(v) if v.sort() == z3.IntSort() else v
+                    r = z3.ToReal(r) if r.sort() == z3.IntSort() else r
+                r = z3.If(to_z3(cond), v, r)
+        return r
     if e.is_Pow and e.exp.is_Integer:
         b = to_z3(e.base)
         n = int(e.exp)
@@ -814,6 +841,8 @@ def to_z3(e):
         return z3.Or(*[to_z3(a) for a in e.args])
     if isinstance(e, sp.Not):
         return z3.Not(to_z3(e.args[0]))
+    if isinstance(e, sp.ITE):
+        return z3.If(to_z3(e.args[0]), to_z3(e.args[1]), to_z3(e.args[2]))
     if isinstance(e, sp.Function) or (hasattr(e, 'func') and isinstance(e.func, sp.core.function.UndefinedFunction)):
         nm = e.func.__name__
         f = _ZF.get((nm, len(e.args)))
@@ -1059,6 +1088,12 @@ class Exec:
         if a is None or b is None or isinstance(a, (dict, list)) or isinstance(b, (dict, list)):
             if op == '==': return a is b
             if op == '!=': return a is not b
+        if isinstance(a, Mx) and isinstance(b, Mx) and (a.r, a.c) == (b.r, b.c) and (a.r, a.c) != (1, 1):      # coefficient-wise comparison of two arrays
+            out = BoolArr()
+            for x, y in zip(a.flat(), b.flat()):
+                r = REL[op](x.v, y.v)
+                out.append(bool(r) if r in (sp.true, sp.false) else r)
+            return out
         if isinstance(a, Mx) and not isinstance(b, Mx):      # coefficient-wise comparison of an array with a scalar
             out = BoolArr()
             for x in a.flat():
